@@ -211,8 +211,95 @@ def const_str_of(db, body, o):
     return None
 
 
+def _table_of_const(db, name):
+    """{name: value} of a `const X: &[(&str, &str)]` header table"""
+    cb = db.body(name)
+    out = {}
+    if cb is None:
+        return out
+    for bi, si, st in cb.stmts():
+        rv = st["rv"]
+        if rv["k"] == "agg" and rv.get("agg") == "tuple" and len(rv["ops"]) == 2:
+            k, v = const_str_of(db, cb, rv["ops"][0]), const_str_of(db, cb, rv["ops"][1])
+            if k is not None and v is not None:
+                out[k] = v
+    return out
+
+
+def _rule_r3_by_arm(chk, db):
+    """the five per-event tables when they are written as arms of one `match self` in the dispatcher (or inlined into it): decided per arm"""
+    disp = [b for b in db.grep("into_message") if b.crate == "s3s" and short(b.name) == "into_message" and "SelectObjectContentEvent" in b.name]
+    if len(disp) != 1:
+        raise AnchorMissing("event dispatcher into_message: %d bodies" % len(disp))
+    b = disp[0]
+    sw = None
+    for s_ in b.live_blocks():
+        t = b.blocks[s_]["term"]
+        if t["k"] == "switch":
+            src = paths.switch_source(b, t)
+            if src and src[0] == "discr" and "SelectObjectContentEvent" in src[1]["enum"]:
+                sw = (s_, t, src)
+    if sw is None:
+        raise AnchorMissing("the dispatcher does not match on the event")
+    s_, t, src = sw
+    vals = paths.discr_values(t, src[1])
+    arms = {}
+    for lab, tb in b.succ_edges(s_):
+        v = vals.get(lab)
+        if v and not v.startswith("OTHER:"):
+            arms[v] = flow.reach(b, [tb], stop_blocks=frozenset([s_]))
+    n = 0
+    by_event = {want[":event-type"]: (ty, want, payload) for ty, (want, payload) in SPEC.items()}
+    for v, region in sorted(arms.items()):
+        if v not in by_event:
+            chk.fail("R3", "variant:" + v, b.loc(), "event variant %s is not in the specification table" % v)
+            continue
+        ty, want, payload = by_event[v]
+        mine = region - set().union(*[r for k, r in arms.items() if k != v]) if len(arms) > 1 else region
+        n += 1
+        got = {}
+        pay_ops = []
+        for bi in sorted(mine):
+            for st in b.blocks[bi]["stmts"]:
+                rv = st["rv"]
+                if rv["k"] == "agg" and rv.get("agg") == "tuple" and len(rv["ops"]) == 2:
+                    k, val = const_str_of(db, b, rv["ops"][0]), const_str_of(db, b, rv["ops"][1])
+                    if k is not None and val is not None:
+                        got[k] = val
+                    else:
+                        pay_ops.append((bi, rv["ops"][1]))
+                if rv["k"] == "agg" and rv.get("adt", "").endswith("event_stream::Message"):
+                    m = dict(zip(rv["fields"], rv["ops"]))
+                    pay_ops.append((bi, m["payload"]))
+            tt = b.blocks[bi]["term"]
+            if tt["k"] == "call" and short(callee_def(tt)) == "const_headers":
+                for a in tt["args"]:
+                    if isinstance(a, dict) and a.get("c") == "item":
+                        got.update(_table_of_const(db, a["def"]))
+        chk.verdict(got == want, "R3", ty + ".headers", b.loc(), "%s frame headers %s differ from the specification %s" % (ty, got, want))
+        okp = bool(pay_ops)
+        for bi, op in pay_ops:
+            sl = flow.backward(b, op, at=bi)
+            if payload is None:
+                okp = okp and flow.is_none_literal(b, op)
+            elif payload.startswith("raw:"):
+                okp = okp and any(f == "payload" for a_, f in sl.fields if a_ == ty) and not [1 for _, c, _ in sl.calls if not flow.is_transparent(c)]
+            else:
+                fnarg = [c for c in sl.consts if c.get("c") == "fn" and short(c["def"]) == "xml_payload"]
+                okx = bool(fnarg) or any(short(callee_def(c)) == "xml_payload" for _, c, _ in sl.calls)
+                okp = okp and okx and {f for a_, f in sl.fields if a_ == ty} == {"details"}
+        chk.verdict(okp, "R3", ty + ".payload", b.loc(), "%s payload does not follow the specification (%s)" % (ty, payload or "no payload"))
+    chk.floor("R3", n, 5, "event arms of the dispatcher")
+    return n
+
+
 def rule_r3(chk, db):
     n = 0
+    per_type = [1 for ty in SPEC if len([b for b in db.grep("event_stream", "into_message") if b.crate == "s3s" and short(b.name) == "into_message" and ty in b.name]) == 1]
+    if len(per_type) != len(SPEC):
+        _rule_r3_by_arm(chk, db)
+        _rule_r3_tail(chk, db, dispatch=False)     # the arms are the dispatch
+        return
     for ty, (want, payload) in SPEC.items():
         bs = [b for b in db.grep("event_stream", "into_message") if b.crate == "s3s" and short(b.name) == "into_message" and ty in b.name]
         if len(bs) != 1:
@@ -247,6 +334,10 @@ def rule_r3(chk, db):
                 fs = {f for a, f in sl.fields if a == ty}
                 chk.verdict(ok and fs == {"details"}, "R3", ty + ".payload", b.loc(bi), "%s payload must be the XML of its details (fields %s)" % (ty, sorted(fs)))
     chk.floor("R3", n, 5, "event into_message bodies")
+    _rule_r3_tail(chk, db)
+
+
+def _rule_r3_tail(chk, db, dispatch=True):
     # const_headers writes name -> name, value -> value
     ch = db.body(M + "const_headers")
     hd = db.body(M + "header")
@@ -265,7 +356,7 @@ def rule_r3(chk, db):
                 n1 = {ch.local_name(l) for l in s1.locals} & {"name", "value"}
                 chk.verdict(n0 == {"name"} and n1 == {"value"}, "R3", "const_headers-order", ch.loc(bi), "const_headers passes (%s, %s) as (name, value)" % (sorted(n0), sorted(n1)), nontrivial=False)
     # dispatch: each event variant -> its own into_message
-    disp = [b for b in db.grep("into_message") if b.crate == "s3s" and short(b.name) == "into_message" and "SelectObjectContentEvent" in b.name]
+    disp = [b for b in db.grep("into_message") if b.crate == "s3s" and short(b.name) == "into_message" and "SelectObjectContentEvent" in b.name] if dispatch else []
     for b in disp:
         for s in b.live_blocks():
             t = b.blocks[s]["term"]
